@@ -60,7 +60,12 @@ const (
 	URNTel2     = "tel:+12065553333"
 	URNBad      = "tel:not a number"
 	URNUpper    = "twitter:ANN" // needs normalising, same identity as URNTwitter
+	// affinity to a channel that is no longer among the assets (resolves to no channel)
+	URNStaleChannel = "tel:+12065551212?channel=0a6bd5b3-0a7c-4d0c-9c0c-7a6c0c0c0c0c"
 )
+
+// URNExtraParams has the channel parameter preceded by another parameter (not in the order the library writes them).
+var URNExtraParams = "tel:+12065551212?id=123&channel=" + world.ChanTel
 
 // Contacts enumerates the starting contacts: a product over the dimensions that interact with the
 // modifiers and query groups.
@@ -68,7 +73,7 @@ func Contacts(full bool) []J {
 	names := []string{"", "Ann", "Annabelle"}
 	langs := []string{"", "eng", "fra"}
 	statuses := []string{"active", "blocked", "stopped", "archived"}
-	urnLists := [][]any{{}, {URNTel}, {URNTel, URNTwitter}, {URNTwitter2, URNTel2}, {URNTel + "?channel=" + world.ChanTel, URNTwitter2}}
+	urnLists := [][]any{{}, {URNTel}, {URNTel, URNTwitter}, {URNTwitter2, URNTel2}, {URNTel + "?channel=" + world.ChanTel, URNTwitter2}, {URNStaleChannel, URNTwitter}, {URNExtraParams}}
 	groupSets := [][]any{{}, {J{"uuid": world.GroupA, "name": "Group A"}}, {J{"uuid": world.GroupA, "name": "Group A"}, J{"uuid": world.GroupB, "name": "Group B"}}}
 	wrongQ := []int{-1, 2, 9} // stored membership of a query group that may be wrong (-1 = none)
 	fieldSets := []J{{}, {"gender": J{"text": "F"}}, {"gender": J{"text": "F"}, "age": J{"text": "30", "number": 30}, "state": J{"text": "Kigali", "state": "Rwanda > Kigali City"}}}
@@ -76,7 +81,7 @@ func Contacts(full bool) []J {
 	if !full {
 		names = []string{"", "Ann"}
 		langs = []string{"", "eng"}
-		urnLists = [][]any{{}, {URNTel, URNTwitter}, {URNTel + "?channel=" + world.ChanTel, URNTwitter2}}
+		urnLists = [][]any{{}, {URNTel, URNTwitter}, {URNTel + "?channel=" + world.ChanTel, URNTwitter2}, {URNStaleChannel, URNTwitter}, {URNExtraParams}}
 		wrongQ = []int{-1, 9}
 	}
 	var out []J
@@ -142,8 +147,8 @@ func Modifiers() []J {
 		out = append(out, J{"type": "timezone", "timezone": tz})
 	}
 	fieldVals := map[string][]string{
-		"gender": {"", "F", "M", "Female", strings.Repeat("y", 700)},
-		"age":    {"", "30", "17", "thirty", "30.0"},
+		"gender": {"", "F", "M", "Female", strings.Repeat("y", 700), "  ", " F "},
+		"age":    {"", "30", "17", "thirty", "30.0", " 30 "},
 		"joined": {"", "2021-02-03", "2021-02-03T10:00:00Z", "yesterday"},
 		"state":  {"", "Kigali", "Kigali City", "Nowhere"},
 	}
@@ -176,6 +181,7 @@ func Modifiers() []J {
 	for _, ch := range []string{world.ChanTel, world.ChanTwitter, world.ChanNoSend} {
 		out = append(out, J{"type": "channel", "channel": J{"uuid": ch, "name": "x"}})
 	}
+	out = append(out, J{"type": "channel", "channel": nil}) // clears the preferred channel
 	out = append(out, J{"type": "ticket", "topic": J{"uuid": world.TopicB, "name": "Support"}, "assignee": J{"email": "bob@nyaruka.com", "name": "Bob"}, "note": "n"})
 	out = append(out, J{"type": "ticket", "topic": J{"uuid": world.TopicA, "name": "General"}, "note": ""})
 	return out
